@@ -20,6 +20,7 @@ RULE = (
 )
 REQUIRED = {
     "mon:detail.user-payload-delivered": 300,
+    "mon:real-result.records-the-same-outcome": 500,
     "mon:traceback.one-per-raised-failure": 300,
     "mon:mismatch.detail-delivered": 50,
     "mon:fixture.detail-delivered": 50,
@@ -44,7 +45,42 @@ TRACEBACK_KINDS = {"fail", "error", "failsub", "mismatch", "kbd", "exit", "kbdsu
 
 def x_prog(ctx, case):
     nontrivial = _one_run(ctx, case, None)
+    _rendering_result(ctx, case)
     return nontrivial
+
+
+def _rendering_result(ctx, case):
+    """The same program against testtools.TestResult, which RENDERS the details as text when the outcome
+    arrives: the outcome is recorded (rendering does not fail, whatever the chunking of text details), and the
+    rendering names every UTF-8 text detail."""
+    import testtools
+    program = case["prog"]
+    real = testtools.TestResult()
+    log = recorders.Log()
+    env = programs.Env(program)
+    run = programs.execute(program, lambda: testtools.MultiTestResult(recorders.ExtRecorder(log), real), env=env,
+                           runner_factory=programs.runner_factory_for(case.get("runner")))
+    outs = [e for e in log.events if e.name in recorders.OUTCOMES]
+    if len(outs) != 1:
+        return
+    name = outs[0].name
+    recorded = {"addError": len(real.errors), "addFailure": len(real.failures),
+                "addExpectedFailure": len(real.expectedFailures), "addUnexpectedSuccess": len(real.unexpectedSuccesses),
+                "addSkip": sum(len(v) for v in real.skip_reasons.values()), "addSuccess": 0}
+    total = sum(v for k, v in recorded.items())
+    want_total = 0 if name == "addSuccess" else 1
+    ok = total == want_total and (name == "addSuccess" or recorded[name] == 1)
+    base = isinstance(run.propagated, BaseException) and not isinstance(run.propagated, Exception)
+    ctx.check(ok and (run.propagated is None or base), "real-result.records-the-same-outcome",
+              lambda: {"outcome": name, "recorded by TestResult": recorded, "propagated": repr(run.propagated),
+                       "log": [e[1:] for e in env.events][:30]})
+    if ok and name in ("addError", "addFailure"):
+        rendered = (real.errors + real.failures)[0][1]
+        delivered = outs[0].payload["details"] or {}
+        missing = [pid for (tag, dname, pid, *rest) in [e[1:] for e in env.tags("detail")]
+                   if rest[-1] == "text" and any(pid.encode() in v[1] for v in delivered.values()) and pid not in rendered]
+        ctx.check(not missing, "real-result.records-the-same-outcome",
+                  lambda: {"text details missing from the rendered outcome": missing, "rendered": rendered[-400:]})
 
 
 def x_rerun(ctx, case):
